@@ -76,6 +76,8 @@ const (
 	c15HeaderInBody
 	c15BodyAfterTrailer
 	c15Duplicate
+	c15DuplicateUndefinedLow
+	c15DuplicateUndefinedUser
 	c15Kinds
 )
 
@@ -209,6 +211,12 @@ func VerifHarness_C15_synth() {
 	case c15Duplicate:
 		body = append(body, c15F{"58", sym("dup")})
 		refTag = 58
+	case c15DuplicateUndefinedLow:
+		body = append(body, c15F{"4999", sym("x")}, c15F{"4999", sym("y")})
+		refTag = 4999
+	case c15DuplicateUndefinedUser:
+		body = append(body, c15F{"5001", sym("x")}, c15F{"5001", sym("y")})
+		refTag = 5001
 	}
 	// ---- serialise and parse like the session does
 	var inner []byte
@@ -300,6 +308,20 @@ func VerifHarness_C15_synth() {
 	case c15Duplicate:
 		verifCase("duplicate-tag")
 		expect(R, 13, "duplicate-tag")
+	case c15DuplicateUndefinedLow, c15DuplicateUndefinedUser:
+		// an undefined tag that the settings tolerate must still not appear twice
+		verifCase("duplicate-undefined-tag")
+		tolerated := settings.AllowUnknownMessageFields
+		if defect == c15DuplicateUndefinedUser {
+			tolerated = !settings.CheckUserDefinedFields
+		}
+		if R && tolerated {
+			expect(true, 13, "duplicate-undefined-tag")
+		} else if R {
+			expect(true, 0, "undefined-tag")
+		} else {
+			verifAssert(rej == nil, "duplicate-undefined-tag-accepted-when-check-relaxed")
+		}
 	}
 	verifObserve("reason", reason)
 }
